@@ -1705,4 +1705,4 @@ def run_C16(rng, tier):
     cases = standalone_cases(rng, C16_VIEWS, 40 * k)
     run_impl(cases)
     return finish("C16", "C16", cases, viols, "f64 (release) against the same code at the exact scalar (surrogates at 2^-64): %d-step streams with magnitudes and steps inside three decades, sampled every 997 steps (tolerance 1e-6 x scale); volatile prefixes of magnitude 30 / 1e3 / 1e6 followed by >= N+1 identical values (tolerance 1e-4 x scale, exact flat answers); f32 on 3000-step streams (1e-2); plus the exact-scalar correspondence of the anchored views" % L,
-                  {"f64_vs_exact_runs": len(groups), "f32_runs": len(f32), "stream_length": L})
+                  {"f64_vs_exact_runs": len(groups), "f32_runs": len(f32), "stream_length": L, "long_f64_runs": len(mc), "constant_stream_length": 1000000 if tier == "quick" else 4000000})
